@@ -81,9 +81,9 @@ CutLensOK(c, ts) ==
   /\ \A i \in 1..Len(c.dat) : c.dat[i].dur = FLen(ts.dat[c.dat[i].fno].dur) /\ c.dat[i].vol = FLen(ts.dat[c.dat[i].fno].vol)
 ModelCut(c, ts) ==
   [ idx  |-> [n |-> c.idx.len \div 6, zf |-> c.idx.zf],
-    dat  |-> [x \in Files(ts) |-> [len |-> CutFile(c, x).len, zf |-> CutFile(c, x).zf, old |-> CutFile(c, x).old]],
+    dat  |-> TLCEval([x \in Files(ts) |-> [len |-> CutFile(c, x).len, zf |-> CutFile(c, x).zf, old |-> CutFile(c, x).old]]),
     meta |-> c.meta ]
-Crashed(cuts) == [t \in Tables |-> CrashTable(tab[t], ModelCut(cuts[t], tab[t]))]
+Crashed(cuts) == TLCEval([t \in Tables |-> CrashTable(tab[t], ModelCut(cuts[t], tab[t]))])
 
 (* C24 for a reopened image *)
 C24(o) == /\ ~FailedOf(o.tabs)
@@ -98,7 +98,7 @@ ImageOK(cuts, res) ==
   /\ C24(o)
 
 (* ---------------------------- events ---------------------------- *)
-FreshTabs == [t \in Tables |-> NewTable]
+FreshTabs == TLCEval([t \in Tables |-> NewTable])
 TInit == Step_(/\ Ev.op = "init" /\ Ev.maxfile = MaxFile
                /\ LET o == OpenAll(FreshTabs) IN
                   /\ tab' = o.tabs /\ rep' = [head |-> o.head, tails |-> o.tails]
@@ -163,7 +163,7 @@ TImageBad == /\ l <= Len(Trace) /\ Ev.op = "image" /\ ~ImageOK(Ev.cuts, Ev.res)
              /\ FALSE /\ UNCHANGED tvars
 
 (* the call returns: every remaining primitive is executed (none of them may be a sync) *)
-Finished == [t \in Tables |-> Run(Run(tab[t], pend[t].p1), pend[t].p2)]
+Finished == TLCEval([t \in Tables |-> Run(Run(tab[t], pend[t].p1), pend[t].p2)])
 TRet == Step_(/\ Ev.op = "ret" /\ ~Ev.err
               /\ \A t \in Tables : NoSyncIn(pend[t].p1) /\ NoSyncIn(pend[t].p2)
               /\ tab' = Finished
